@@ -279,7 +279,9 @@ func runCase(cc grpc.ClientConnInterface, srv *scripted, c scase, measureLeak bo
 					case 't':
 						e = "t" + canonMD(cs.Trailer())
 					case 'x':
-						quiesce(cl, nsent, closedSend)
+						if !c.Async {
+							quiesce(cl, nsent, closedSend)
+						}
 						cancel()
 						e = "x"
 					case 'd':
@@ -330,8 +332,15 @@ func runCase(cc grpc.ClientConnInterface, srv *scripted, c scase, measureLeak bo
 		// a finished call must unwind on its own (no cancel); an aborted one after the cancel
 		select {
 		case <-cl.done:
-		case <-time.After(opTimeout):
-			cl.logf("handler-not-finished")
+		case <-time.After(40 * time.Millisecond):
+			if aborted && !measureLeak && !cl.entered.Load() {
+				break // cancelled before the handler was ever started (gRPC): nothing to wait for
+			}
+			select {
+			case <-cl.done:
+			case <-time.After(opTimeout):
+				cl.logf("handler-not-finished")
+			}
 		}
 	}
 	out.server = cl.serverLog()
